@@ -258,6 +258,17 @@ def build(pm, D, rng=None):
         rng.shuffle(ops)
     for v, a, obj in ops:
         im.add(v, a, obj)
+    # an add the manifest refuses (same identity, other checksums; into a cell of its own) changes nothing - the caller
+    # catches the error and carries on
+    if D["images"] and D.get("refused_add", True):
+        rival = dict(D["images"][0]["attrs"])
+        rival["checksums"] = {"md5": "0" * 31 + "f"} if D["images"][0]["attrs"]["checksums"] != {"md5": "0" * 31 + "f"} else {"md5": "1" * 32}
+        rival["path"] = "refused/" + rival["path"]
+        try:
+            im.add("RefusedVariant", "x86_64", make_image(pm, im, rival))
+            raise AssertionError("a colliding add was accepted (C09's subject)")
+        except ValueError:
+            pass
     return im
 
 
